@@ -169,6 +169,7 @@ def prepare(hdir=None, want_release=False, verbose=True, extra_mir_pkgs=()):
     res = {'hash': key, 'mir': os.path.join(out, 'base.mir'), 'replay_dev': os.path.join(out, 'verif_replay_dev'),
            'replay_release': os.path.join(out, 'verif_replay_release'), 'src': os.path.join(out, 'src'),
            'out': out, 'times': {}}
+    os.environ['MIRSYM_OUT'] = out
     lockf = open(os.path.join(CACHE, 'build.lock'), 'w')
     fcntl.flock(lockf, fcntl.LOCK_EX)
     try:
